@@ -148,6 +148,18 @@ func (s *Step) Describe() string {
 	return b.String()
 }
 
+// unknownChain returns a chain name nobody has a client for: a fixed one, a proper prefix of a real chain's name, or
+// a real name with a character appended (lookups by prefix instead of by exact name would take them for known).
+func unknownChain(realName, fixed string, sel int) string {
+	switch mod(sel, 3) {
+	case 1:
+		return realName[:len(realName)-1]
+	case 2:
+		return realName + "x"
+	}
+	return fixed
+}
+
 func short(c string) string {
 	return strings.TrimPrefix(c, "chain")
 }
@@ -604,11 +616,11 @@ func (s *Sim) opMockSend(op Op) *Violation {
 		data = nil
 		note = "empty-data"
 	case 4:
-		dst = "chain-nowhere"
+		dst = unknownChain(dst, "chain-nowhere", op.D)
 		seq = src.App.TIBCKeeper.PacketKeeper.GetNextSequenceSend(ctx, src.Name, dst)
 		note = "unknown-dest"
 	case 5:
-		relay = "chain-norelay"
+		relay = unknownChain(dst, "chain-norelay", op.D)
 		note = "unknown-relay"
 	case 6:
 		note = "dest-self"
@@ -1174,6 +1186,36 @@ func (s *Sim) opClean(op Op) *Violation {
 	src := s.W.Chains[ch[0]]
 	n := s.pickN(src.Name, ch[0], ch[1], op.C, op.U)
 	relay := s.relayChoice(ch[0], ch[1], op.B)
+	if op.U%5 == 4 {
+		// the proof-less clean request submitted on the *receiving* side of the channel (destination, or a relay
+		// chain), naming the real source: it can only ever concern the executing chain's own outgoing channels
+		on := s.W.Chains[ch[1]]
+		if r := s.relayChoice(ch[0], ch[1], 1+int(op.U/5)%3); r != "" && (op.U/5)%2 == 1 {
+			on = s.W.Chains[r]
+		}
+		if on != nil && on.Name != ch[0] {
+			// the highest sequence this chain has itself written an acknowledgement for (what a local check of
+			// "highest acknowledged" would be satisfied with), or a small number
+			n = 0
+			for q := s.MaxSeq(ch[0], ch[1]); q >= 1; q-- {
+				if len(s.AckAt(on.Name, ch[0], ch[1], q, on.Height)) != 0 {
+					n = q
+					break
+				}
+			}
+			if mod(op.C, 3) == 2 || n == 0 {
+				n = 1 + op.U%3
+			}
+			signer := on.Accounts[[]int{world.RelayerIdx, 0, world.OutsiderIdx}[mod(op.D, 3)]]
+			// the relay field names a chain the executor has a client for, so that only the clean rules can refuse
+			cp := packettypes.NewCleanPacket(n, ch[0], ch[1], ch[0])
+			msg := packettypes.NewMsgCleanPacket(cp, signer.Addr)
+			st := &Step{Op: op, Kind: "clean", Clean: &msg.CleanPacket, Note: "submitted-on-receiving-side"}
+			s.Labels["clean-submitted-on-receiving-side"]++
+			s.deliver(st, on, signer, msg)
+			return s.record(st)
+		}
+	}
 	signer := src.Accounts[[]int{world.RelayerIdx, 0, world.OutsiderIdx}[mod(op.D, 3)]]
 	cp := packettypes.NewCleanPacket(n, ch[0], ch[1], relay)
 	msg := packettypes.NewMsgCleanPacket(cp, signer.Addr)
